@@ -10,8 +10,10 @@
 
 #include "IO/ProgramOptions.hpp"
 
+#include <array>
 #include <iomanip>
 #include <limits>
+#include <utility>
 
 vfps::ProgramOptions::ProgramOptions() :
     _configfile("default.cfg"),
@@ -364,10 +366,26 @@ bool vfps::ProgramOptions::parse(int ac, char** av)
                                      + _configfile + "\".";
                 Display::printText(message);
                 store(parse_config_file(ifs, _cfgfileopts), _vm);
-                notify(_vm);
-                if(_vm.count("SyncFreq")) {
-                    _vm.at("SynchrotronFrequency").value()
-                            = _vm["SyncFreq"].value();
+                /* Legacy option names act like their current names:
+                 * the value is taken over unless the current name has been
+                 * given explicitly (which has precedence, e.g. on the
+                 * command line). The legacy entries are dropped afterwards,
+                 * so the variables bound to both names (and the saved
+                 * configuration) only see the current names.
+                 */
+                const std::array<std::pair<const char*,const char*>,3> aliases{{
+                    {"RFVoltage","AcceleratingVoltage"},
+                    {"SyncFreq","SynchrotronFrequency"},
+                    {"steps","StepsPerTs"}
+                }};
+                for (const auto& alias : aliases) {
+                    auto legacy = _vm.find(alias.first);
+                    if (legacy != _vm.end()) {
+                        if (_vm[alias.second].defaulted()) {
+                            _vm.at(alias.second) = legacy->second;
+                        }
+                        _vm.erase(legacy);
+                    }
                 }
                 notify(_vm);
             }
